@@ -13,8 +13,8 @@ META = {
         "quick": "partition(timeout): k<=3 arrivals; timed_window / timed_window_unique: k<=2 (sharded); gaps sym in [0,4], "
                  "interval/timeout sym in [1,3], consumer durations sym in [0,3], partition size n in {1,2,3} (sharded), "
                  "keys sym in {0,1}, same-instant order sym",
-        "thorough": "k<=4 arrivals for partition (3 into a slow consumer), k<=3 for timed_window(_unique) with gaps in [0,3], "
-                    "interval in [1,2]",
+        "thorough": "k<=4 arrivals for partition (3 into a slow consumer), k<=3 for timed_window with gaps in [0,3], "
+                    "interval in [1,2]; timed_window_unique k<=2",
     },
     "outside": ["clock drift", "convert_interval string parsing (pandas)", "awaiting producers (covered in C02/C03)"],
     "stubs": ["clock: streamz.core.time / IOLoop.time -> virtual integer tick", "event loop: engine/vloop.py"],
@@ -296,7 +296,7 @@ def obligations(tier):
             for n in (1, 2):
                 add("partition-keys/n=%d/k=%d" % (n, k),
                     {"kind": "partition", "k": k, "slow": False, "n": n, "keys": True}, k + 1 + k, k)
-        if k <= kw:
+        if k <= 2:       # (3 arrivals did not finish within 3000 s of CPU: outside both tiers)
             for keep in ("first", "last"):
                 sh = {"kind": "timed_window_unique", "k": k, "slow": False, "keys": True, "keep": keep}
                 if q or k == 3:
